@@ -45,11 +45,12 @@ package store
 // header and the entry digests. (`alh` is the local array the stored hash is read into.)
 //@ func (*txDataReader).readHeader
 //@   requires t.r != nil
-//@   ensures hdr: r1 == nil ==> r0 != nil && t.h == r0 && 0 <= r0.NEntries && r0.NEntries <= maxEntries && (r0.Version == 0 || r0.Version == 1)
+//@   ensures hdr: r1 == nil ==> r0 != nil && t.h == r0
+//@   ensures count: r1 == nil ==> 0 <= r0.NEntries && r0.NEntries <= maxEntries
 //@   assigns internal, t
 
 //@ func (*txDataReader).buildAndValidateHtree
-//@   requires t.r != nil && t.h != nil && htree != nil && (t.h.Version == 0 || t.h.Version == 1)
+//@   requires t.r != nil && t.h != nil && htree != nil && (t.h.Version == 0 || t.h.Version == 1) && !sameobj(t.r.data, t.h)
 //@   ensures checked: r0 == nil && !old(t.skipIntegrityCheck) ==> t.h.Alh() == alh
 //@   assigns internal, t.h
 
